@@ -655,54 +655,79 @@ fn wrap_with(x: &Seq, w: Wrap, f: Fill, y: &[Kind]) -> Seq {
     out
 }
 
-/// Every core wrapped in every nesting context, nested up to `depth` levels. `full` selects the
-/// larger context set (six wrappers, fillers a / *), otherwise four wrappers and fillers a /.
-pub fn position_family(depth: usize, full: bool) -> Vec<Seq> {
-    let cores: Vec<Seq> = [
+/// The position family, level by level: `levels[i]` holds every core wrapped i+1 times. `full`
+/// selects the larger context set (six wrappers, fillers a / * a/ /a), otherwise four wrappers
+/// and fillers a / a/ /a.
+pub struct PositionFamily {
+    contexts: Vec<(Wrap, Fill, Vec<Kind>)>,
+    pub levels: Vec<Vec<Seq>>,
+}
+
+pub fn position_cores() -> Vec<Seq> {
+    [
         "a", "/", "*", "/a", "a/", "*a", "a*", "**/a", "a/**", "/**/a", "a/**/a", "/a/", "*/", "/*", "**/", "/**", "(?i)a", "a/a",
         "a/a/a",
     ]
     .iter()
     .filter_map(|t| crate::syntax::parse(t).ok())
     .map(|s| strip(&s))
-    .collect();
-    let wraps: Vec<Wrap> = if full {
-        vec![Wrap::Alt1, Wrap::Alt2L, Wrap::Alt2R, Wrap::Rep12, Wrap::Rep0, Wrap::Rep1]
-    }
-    else {
-        vec![Wrap::Alt1, Wrap::Alt2R, Wrap::Rep12, Wrap::Rep0]
-    };
-    let fillers: Vec<Vec<Kind>> = if full {
-        vec![vec![lit("a")], vec![Kind::Sep], vec![Kind::Zom(false)], vec![lit("a"), Kind::Sep], vec![Kind::Sep, lit("a")]]
-    }
-    else {
-        vec![vec![lit("a")], vec![Kind::Sep], vec![lit("a"), Kind::Sep], vec![Kind::Sep, lit("a")]]
-    };
-    let mut contexts: Vec<(Wrap, Fill, Vec<Kind>)> = vec![];
-    for w in &wraps {
-        contexts.push((*w, Fill::None, vec![Kind::Sep]));
-        for f in [Fill::OuterLeft, Fill::OuterRight, Fill::InnerLeft, Fill::InnerRight] {
-            for y in &fillers {
-                contexts.push((*w, f, y.clone()));
-            }
+    .collect()
+}
+
+impl PositionFamily {
+    /// Materialises `depth` levels (the caller streams one more level with `wraps_of`).
+    pub fn new(depth: usize, full: bool) -> PositionFamily {
+        let cores: Vec<Seq> = position_cores();
+        let wraps: Vec<Wrap> = if full {
+            vec![Wrap::Alt1, Wrap::Alt2L, Wrap::Alt2R, Wrap::Rep12, Wrap::Rep0, Wrap::Rep1]
         }
-    }
-    let mut level: Vec<Seq> = cores;
-    let mut out: Vec<Seq> = vec![];
-    for _ in 0..depth {
-        let mut next = vec![];
-        for x in &level {
-            for (w, f, y) in &contexts {
-                let s = crate::astops::normalize(&wrap_with(x, *w, *f, y));
-                if is_canonical(&s) {
-                    next.push(s);
+        else {
+            vec![Wrap::Alt1, Wrap::Alt2R, Wrap::Rep12, Wrap::Rep0]
+        };
+        let fillers: Vec<Vec<Kind>> = if full {
+            vec![vec![lit("a")], vec![Kind::Sep], vec![Kind::Zom(false)], vec![lit("a"), Kind::Sep], vec![Kind::Sep, lit("a")]]
+        }
+        else {
+            vec![vec![lit("a")], vec![Kind::Sep], vec![lit("a"), Kind::Sep], vec![Kind::Sep, lit("a")]]
+        };
+        let mut contexts: Vec<(Wrap, Fill, Vec<Kind>)> = vec![];
+        for w in &wraps {
+            contexts.push((*w, Fill::None, vec![Kind::Sep]));
+            for f in [Fill::OuterLeft, Fill::OuterRight, Fill::InnerLeft, Fill::InnerRight] {
+                for y in &fillers {
+                    contexts.push((*w, f, y.clone()));
                 }
             }
         }
-        out.extend(next.iter().cloned());
-        level = next;
+        let mut fam = PositionFamily { contexts, levels: vec![] };
+        let mut level: Vec<Seq> = cores;
+        for _ in 0..depth {
+            let mut next = vec![];
+            for x in &level {
+                fam.wraps_of(x, &mut |s| next.push(s.clone()));
+            }
+            next.sort();
+            next.dedup();
+            fam.levels.push(next.clone());
+            level = next;
+        }
+        fam
     }
-    out
+
+    /// Every canonical wrapping of `x` in one more context.
+    pub fn wraps_of(&self, x: &Seq, f: &mut dyn FnMut(&Seq)) {
+        for (w, fill, y) in &self.contexts {
+            let s = crate::astops::normalize(&wrap_with(x, *w, *fill, y));
+            if is_canonical(&s) {
+                f(&s);
+            }
+        }
+    }
+}
+
+/// Every core wrapped in every nesting context, nested up to `depth` levels (materialised).
+pub fn position_family(depth: usize, full: bool) -> Vec<Seq> {
+    PositionFamily::new(depth, full).levels.into_iter().flatten().collect()
 }
 
 /// Flag family: case flags before, between and inside groups at nesting depth <= 2, over cased
